@@ -349,6 +349,52 @@ impl Space for Scale {
     }
 }
 
+/// Very long token runs through the lexer alone: a unit repeated 2^k times for k far beyond what
+/// the whole front end is pushed through (per-token recursion or quadratic rescans show here).
+struct DeepLex {
+    units: Vec<String>,
+    ks: Vec<u32>,
+}
+
+impl Space for DeepLex {
+    fn id(&self) -> String {
+        "lexer-long-runs-fast".into()
+    }
+    fn size(&self) -> u64 {
+        self.units.len() as u64
+    }
+    fn profile(&self) -> Profile {
+        Profile::Fast
+    }
+    fn chunk(&self) -> u64 {
+        2
+    }
+    fn case_timeout_ms(&self) -> u64 {
+        300_000
+    }
+    fn describe(&self, i: u64) -> String {
+        format!("{:?} repeated 2^k times through the lexer, k in {:?}", self.units[i as usize], self.ks)
+    }
+    fn run(&self, ctx: &mut Ctx, i: u64) -> Outcome {
+        let unit = &self.units[i as usize];
+        let mut tokens = 0u64;
+        for &k in &self.ks {
+            let text = unit.repeat(1 << k);
+            match drive::lexer_total(ctx, &text) {
+                Ok(st) => tokens += st.tokens as u64,
+                Err((class, detail)) => {
+                    return Outcome::bad(
+                        "violation",
+                        Violation::new(class, format!("{unit:?} x 2^{k}"), json!({"detail": detail, "bytes": text.len()})),
+                    );
+                }
+            }
+            ctx.trim();
+        }
+        Outcome { nontrivial: tokens > 0, class: "ok".into(), violations: vec![], counters: vec![("tokens", tokens)], sample: None }
+    }
+}
+
 /// the same family (thinned) and the "only executed if clean" clause through the real binary
 struct ScaleCli {
     units: Vec<String>,
@@ -458,6 +504,13 @@ pub fn spaces(tier: Tier) -> Vec<Box<dyn Space>> {
     v.push(Box::new(Nesting { texts: crate::props::c08::syntactic_shape_texts(if t { &[4, 16, 64, 200, 256, 300, 1024, 4096] } else { &[4, 64, 128, 200, 230, 256, 1024] }) }));
     let units = diagnostic_units();
     v.push(Box::new(Scale { profile: Profile::Poison, units: units.clone(), ks: if t { (0..=14).collect() } else { vec![0, 1, 6, 11] } }));
+    // quick: every single-atom unit (with a blank or a newline after it) at 2^20; thorough: every unit at 2^17 and 2^20
+    let deep_units: Vec<String> = if t {
+        units.clone()
+    } else {
+        ATOMS.iter().filter(|a| !a.contains('\0')).flat_map(|a| [format!("{a} "), format!("{a}\n")]).collect()
+    };
+    v.push(Box::new(DeepLex { units: deep_units, ks: if t { vec![17, 20] } else { vec![20] } }));
     // thinned for the subprocess runs
     let cli_units: Vec<String> = units.iter().step_by(if t { 7 } else { 41 }).cloned().collect();
     v.push(Box::new(ScaleCli { units: cli_units, ks: if t { vec![0, 6, 11, 14] } else { vec![0, 11] } }));
